@@ -836,6 +836,27 @@ func (fr *Frame) iterInvariants(lp *Loop, st *State) []iterInv {
 			out = append(out, iterInv{cl: cl, text: cj.String(), term: t, err: err})
 		}
 	}
+	if lp == inner {
+		// invariants of the inner loop only: iterKey / iterInner name the outer key and its map
+		for _, ref := range *on.Referrers() {
+			if ex, ok := ref.(*ssa.Extract); ok {
+				if v, ok := fr.vals[ex]; ok {
+					switch ex.Index {
+					case 1:
+						env.names["iterKey"] = v
+					case 2:
+						env.names["iterInner"] = v
+					}
+				}
+			}
+		}
+		for _, cl := range ct.clauses("iterinner") {
+			for _, cj := range conjuncts(cl.Expr) {
+				t, err := env.evalBool(cj)
+				out = append(out, iterInv{cl: cl, text: cj.String(), term: t, err: err})
+			}
+		}
+	}
 	return out
 }
 
